@@ -117,7 +117,7 @@ def run_case(case):
             viols.append(sv)
             continue
         fin = np.isfinite(ref)
-        if not np.array_equal(np.isfinite(out), fin) or not np.array_equal(out[~fin], ref[~fin]):
+        if not np.array_equal(np.isfinite(out), fin) or not np.array_equal(out[~fin], ref[~fin], equal_nan=True):
             viols.append(cm.viol("infinite values (points on nuclei) differ from the expected pattern at threshold %.3g: got %s expected %s" % (thr, out[~fin | ~np.isfinite(out)][:4], ref[~fin | ~np.isfinite(out)][:4]), "esp_inf", thr=thr))
         if fin.any():
             e, at = cm.maxerr(out[fin], ref[fin], scale[fin])
